@@ -62,6 +62,15 @@ CHECKS = {
             "All shapes with N=3 (N=4 thorough) x root sources (required / defaulted DAG argument, constant) x one feature (indexed use, keyword use, activation edge, alias form) x inputs (Ellipsis, [], singletons, pairs, "
             "original argument, shared tag) x outputs: result terms equal the substituted reference, exactly the needed nodes run, setup results are taken from the original, error cases raise ValueError, "
             "the original DAG (results, node table, graph) is unchanged and can be composed again.", TB_REAL),
+    "C11": ("model_checking", "6 (C11)", "bounded symbolic exploration of operation histories on the real DAG objects, values as z3 terms",
+            "Every history of length <= 2 on N=3 and <= 3 on N=2 (thorough: 3 / 4) over {call, setup(), setup(target), setup([]), executor(), executor(target), deepcopy-then-continue}, every setup placement, sync and async: "
+            "each setup node is entered at most once per instance, later results reuse the first value (also when it is None), selections run only the setup nodes they need, deep copies are independent, invalid placements are rejected at build.", TB_REAL),
+    "C15": ("model_checking", "6 (C15)", "bounded symbolic exploration of operation histories, results compared with the plain evaluation for fresh symbolic arguments",
+            "Every history of length <= 3 (+ a final call; thorough 4) over {call with default omitted / supplied, failing call, executor create / run / failing run, compose + call, config_from_dict} on 3 programs, sync and async: "
+            "every call returns the term for its own arguments; an executor refuses a second run after success and refuses or recomputes from scratch after a failure.", TB_REAL),
+    "C18": ("model_checking", "6 (C18)", "bounded symbolic exploration of (caching run, restart) pairs with real pickling of symbolic values",
+            "All shapes with N=3 x caching selection {whole, target=[i], cache_deps_of=[i]} x restart {same selection, whole} x {same instance, pristine deep copy} x optional setup node, and two rounds on the same file (N=2; N=3 thorough): "
+            "file contents are exactly the documented ids, no cached node is executed, returned terms are the cached ones / computed from them, cache_deps_of restart executes that node only.", TB_REAL),
 }
 
 NA_REASON = "check not built yet (work in progress)"
